@@ -3,6 +3,16 @@
    Glue only: parsing, printing, name environments.  All semantic content is
    in the extracted module Model. *)
 open Model
+type string = Stdlib.String.t
+
+(* Coq strings (error codes) to OCaml strings *)
+let rec ocaml_string (s : Model.string) : string =
+  match s with
+  | EmptyString -> ""
+  | String (Ascii (b0, b1, b2, b3, b4, b5, b6, b7), r) ->
+    let bit b k = if b then 1 lsl k else 0 in
+    let c = bit b0 0 + bit b1 1 + bit b2 2 + bit b3 3 + bit b4 4 + bit b5 5 + bit b6 6 + bit b7 7 in
+    Stdlib.String.make 1 (Char.chr c) ^ ocaml_string r
 
 let rec nat_of_int n = if n <= 0 then O else S (nat_of_int (n - 1))
 let rec int_of_nat = function O -> 0 | S n -> 1 + int_of_nat n
@@ -44,7 +54,7 @@ let edges : (string, string * dd) Hashtbl.t = Hashtbl.create 31   (* name -> for
 let line = ref 0
 let emit s = Printf.printf "@%d %s\n" !line s
 
-let split s = List.filter (fun t -> t <> "") (String.split_on_char ' ' (String.map (fun c -> if c = '\t' then ' ' else c) s))
+let split s = List.filter (fun t -> t <> "") (Stdlib.String.split_on_char ' ' (Stdlib.String.map (fun c -> if c = '\t' then ' ' else c) s))
 
 exception Unsupported
 exception Err of string
@@ -56,7 +66,7 @@ let get_edge n = try Hashtbl.find edges n with Not_found -> raise Unsupported
 
 let table_str f t =
   let tb = table (szf f) f.rule (nat_of_int (nlev f)) t in
-  String.concat "," (List.map (fun z -> string_of_int (int_of_z z)) tb)
+  Stdlib.String.concat "," (List.map (fun z -> string_of_int (int_of_z z)) tb)
 
 let dump_str f t =
   let ids : (dd, int) Hashtbl.t = Hashtbl.create 31 in
@@ -75,7 +85,7 @@ let dump_str f t =
          let me = !next in
          incr next;
          Hashtbl.add ids t me;
-         Buffer.add_string body (Printf.sprintf " n%d=L%d[%s]" me (mlevel f (int_of_nat k)) (String.concat " " rs));
+         Buffer.add_string body (Printf.sprintf " n%d=L%d[%s]" me (mlevel f (int_of_nat k)) (Stdlib.String.concat " " rs));
          me
        | T _ -> 0)
   in
@@ -224,6 +234,38 @@ let run toks =
       | _ -> raise Unsupported in
     let t = apply1 (szf fr) g fa.rule fr.rule l O ta in
     set_edge r fn t; show r
+  | "term" :: kind :: v :: _ ->
+    let str = ocaml_string in
+    let big s = (* decimal or hex string to z, via int (63-bit is enough) *) z_of_int (int_of_string s) in
+    (match kind with
+     | "int" ->
+       (match getIntegerHandle (big v) with
+        | Err c -> raise (Err (str c))
+        | Ok h ->
+          (match setFromHandle_INTEGER h with
+           | Ok b -> emit (Printf.sprintf "term int h=%d back=%d" (int_of_z h) (int_of_z b))
+           | Err c -> raise (Err (str c))))
+     | "real" ->
+       (match getRealHandle (big ("0x" ^ v)) with
+        | Err c -> raise (Err (str c))
+        | Ok h ->
+          (match setFromHandle_REAL h with
+           | Ok b -> emit (Printf.sprintf "term real h=%d back=%08x" (int_of_z h) (int_of_z b))
+           | Err c -> raise (Err (str c))))
+     | "bool" ->
+       let h = if v <> "0" then (-1) else 0 in
+       (match setFromHandle_BOOLEAN (z_of_int h) with
+        | Ok b -> emit (Printf.sprintf "term bool h=%d back=%d" h (int_of_z b))
+        | Err c -> raise (Err (str c)))
+     | "hint" ->
+       (match setFromHandle_INTEGER (big v) with
+        | Ok b -> emit (Printf.sprintf "term hint v=%d" (int_of_z b))
+        | Err c -> raise (Err (str c)))
+     | "hreal" ->
+       (match setFromHandle_REAL (big v) with
+        | Ok b -> emit (Printf.sprintf "term hreal v=%08x" (int_of_z b))
+        | Err c -> raise (Err (str c)))
+     | _ -> raise Unsupported)
   | "show" :: a :: _ -> show a
   | "eq" :: a :: b :: _ ->
     let (fa, ta) = get_edge a and (fb, tb) = get_edge b in
@@ -241,7 +283,7 @@ let () =
      while true do
        let l = input_line ic in
        incr line;
-       let l = match String.index_opt l '#' with Some i -> String.sub l 0 i | None -> l in
+       let l = match Stdlib.String.index_opt l '#' with Some i -> Stdlib.String.sub l 0 i | None -> l in
        let toks = split l in
        if toks <> [] then
          (try run toks with
